@@ -162,6 +162,7 @@ package store
 //@   requires CLInv(s) && SInv(other) && disjoint(s, other)
 //@   ensures CLInv(s) && SInv(other) && s.maxNumBins == old(s.maxNumBins)
 //@   ensures total: s.count == old(s.count) + old(STot(other))
+//@   ensures arg-same-kind: is(other, *CollapsingLowestDenseStore) ==> as(other, *DenseStore).count == old(as(other, *DenseStore).count) && (forall k int :: DView(as(other, *DenseStore), k) == old(DView(as(other, *DenseStore), k)))
 //@   ensures arg: STot(other) == old(STot(other)) && (forall k int :: SView(other, k) == old(SView(other, k)))
 //@   ensures same-kind: is(other, *CollapsingLowestDenseStore) && old(STot(other)) > 0.0 ==> (forall k int :: DView(as(s, *DenseStore), k) == DFoldLowOld(as(s, *DenseStore), s.minIndex, k) + DFoldLowOf(as(other, *DenseStore), s.minIndex, k))
 //@   ensures edge: is(other, *CollapsingLowestDenseStore) && old(STot(other)) > 0.0 ==> s.maxIndex == max(old(s.maxIndex), as(other, *DenseStore).maxIndex) && s.minIndex == max(min(old(s.minIndex), as(other, *DenseStore).minIndex), s.maxIndex - len(s.bins) + 1)
@@ -343,6 +344,7 @@ package store
 //@   requires CHInv(s) && SInv(other) && disjoint(s, other)
 //@   ensures CHInv(s) && SInv(other) && s.maxNumBins == old(s.maxNumBins)
 //@   ensures total: s.count == old(s.count) + old(STot(other))
+//@   ensures arg-same-kind: is(other, *CollapsingHighestDenseStore) ==> as(other, *DenseStore).count == old(as(other, *DenseStore).count) && (forall k int :: DView(as(other, *DenseStore), k) == old(DView(as(other, *DenseStore), k)))
 //@   ensures arg: STot(other) == old(STot(other)) && (forall k int :: SView(other, k) == old(SView(other, k)))
 //@   ensures same-kind: is(other, *CollapsingHighestDenseStore) && old(STot(other)) > 0.0 ==> (forall k int :: DView(as(s, *DenseStore), k) == DFoldHighOld(as(s, *DenseStore), s.maxIndex, k) + DFoldHighOf(as(other, *DenseStore), s.maxIndex, k))
 //@   ensures edge: is(other, *CollapsingHighestDenseStore) && old(STot(other)) > 0.0 ==> s.minIndex == min(old(s.minIndex), as(other, *DenseStore).minIndex) && s.maxIndex == min(max(old(s.maxIndex), as(other, *DenseStore).maxIndex), s.minIndex + len(s.bins) - 1)
